@@ -178,3 +178,27 @@ def run_driver(name, stdin_text, timeout=600):
                 shutil.copy(os.path.join(env['CARGO_TARGET_DIR'], 'debug', name), out)
     r = subprocess.run([out], input=stdin_text, capture_output=True, text=True, timeout=timeout)
     return r.returncode, r.stdout, r.stderr
+
+# ----------------------------------------------------------------------------- model probes: a std-only crate of /verif, dumped with the same flags and built natively
+def probe_build():
+    """returns (dir with modelprobe.mir, native binary) for /verif/modelprobe; cached by the hash of its sources"""
+    import hashlib
+    pdir = os.path.join(VERIF, 'modelprobe'); h = hashlib.sha256()
+    for f in ('Cargo.toml', 'src/lib.rs', 'src/main.rs'): h.update(open(os.path.join(pdir, f), 'rb').read())
+    key = h.hexdigest()[:16]; out = os.path.join(CACHE, 'probe', key)
+    if os.path.exists(os.path.join(out, 'OK')): return out, os.path.join(out, 'modelprobe')
+    with Lock('probe'):
+        if os.path.exists(os.path.join(out, 'OK')): return out, os.path.join(out, 'modelprobe')
+        src = os.path.join(SCRATCH, 'probe-src'); shutil.rmtree(src, ignore_errors=True); shutil.copytree(pdir, src, ignore=shutil.ignore_patterns('target'))
+        env = dict(ENV, CARGO_TARGET_DIR=os.path.join(CACHE, 'target-probe'))
+        r = subprocess.run(['cargo', '+nightly', 'rustc', '--offline', '--lib', '--', '-Zunpretty=mir', '-C', 'debug-assertions=on', '-Zub-checks=no', '-C', 'overflow-checks=on'], cwd=src, env=env, capture_output=True, text=True)
+        if r.returncode != 0 or not r.stdout.strip(): raise BuildError('MIR dump of modelprobe failed:\n' + r.stderr[-1500:])
+        tmp = out + '.tmp'; shutil.rmtree(tmp, ignore_errors=True); os.makedirs(tmp)
+        open(os.path.join(tmp, 'modelprobe.mir'), 'w').write(r.stdout)
+        env2 = dict(ENV, CARGO_TARGET_DIR=os.path.join(CACHE, 'target-probe-native'))
+        r = subprocess.run(['cargo', 'build', '--offline', '--bin', 'modelprobe'], cwd=src, env=env2, capture_output=True, text=True)
+        if r.returncode != 0: raise BuildError('native build of modelprobe failed:\n' + r.stderr[-1500:])
+        shutil.copy(os.path.join(env2['CARGO_TARGET_DIR'], 'debug', 'modelprobe'), os.path.join(tmp, 'modelprobe'))
+        open(os.path.join(tmp, 'OK'), 'w').write(key)
+        shutil.rmtree(out, ignore_errors=True); os.rename(tmp, out); shutil.rmtree(src, ignore_errors=True)
+    return out, os.path.join(out, 'modelprobe')
